@@ -415,6 +415,8 @@ def _run_variant(case, res, real, prop, stats, label, ops, thunk, dt, s):
     dts = {c.dtype for c in out.cores}
     if dts != {dt}:
         problems.append(P(prop, "dtype", case, "result dtype %s, operands %s" % (dts, dt), real))
+        if len(dts) != 1:
+            return problems          # cores of different dtypes cannot even be contracted
     got = project.dense(out.cores)
     if case["op"] == "div_s":
         got = got * s
